@@ -143,13 +143,42 @@ def unusedOld (y : Expr V) (v : VarT V) : Bool := !(v.any (fun x => (vars y).con
 def gradOld (out : List (Expr V)) (vars : List (VarT V)) : Except String (List (Expr V)) :=
   if vars.any (unusedOld (sumE out)) then .error "unused" else .ok (grad out vars)
 
-/-- pinned `laplacian`: first-order `autograd` without `allow_unused`, then the second `autograd` call
-    on each gradient component; torch's gradient of a product `a*b` w.r.t. a coordinate of `b` only is
-    built from `a` alone, so a function bilinear in (x, t) has a `t`-gradient in which `t` does not occur.
-    Modelled for the witness shape `out = [mul a b]` with `v` occurring in `b = var` only. -/
-def laplacianOldBilinear (a : Expr V) (t : V) : Except String (List (Expr V)) :=
-  -- grad wrt t of a * t  is  a  (graph: a only); second autograd w.r.t. t: unused
-  if unusedOld a [t] then .error "unused" else .ok (laplacian [mul a (var t)] [[t]])
+/-- `none + g = g` : contributions of the operands that lie on a path to the coordinate -/
+def oplus : Option (Expr V) → Option (Expr V) → Option (Expr V)
+  | some p, some q => some (add p q)
+  | some p, none => some p
+  | none, some q => some q
+  | none, none => none
+
+/-- reverse-mode gradient as torch BUILDS it (needed only to say which tensors the gradient's graph mentions):
+    `none` = no path from the output to the coordinate; otherwise the gradient expression, in which only operands
+    lying on such a path contribute a term (`d(a*b)/dt = a * db/dt` when `t` occurs in `b` only — `b` itself is
+    not mentioned). -/
+def Dg (x : V) : Expr V → Option (Expr V)
+  | const _ => none
+  | var y => if y = x then some one else none
+  | add a b => oplus (Dg x a) (Dg x b)
+  | sub a b => oplus (Dg x a) ((Dg x b).map neg)
+  | mul a b => oplus ((Dg x a).map (fun g => mul g b)) ((Dg x b).map (fun g => mul a g))
+  | Expr.div a b => oplus ((Dg x a).map (fun g => Expr.div g b))
+      ((Dg x b).map (fun g => neg (mul (Expr.div a (mul b b)) g)))
+  | neg a => (Dg x a).map neg
+  | pow a n => (Dg x a).map (fun g => mul (mul (const (n : Rat)) (pow a (n - 1))) g)
+  | sin a => (Dg x a).map (fun g => mul (cos a) g)
+  | cos a => (Dg x a).map (fun g => neg (mul (sin a) g))
+  | exp a => (Dg x a).map (fun g => mul (exp a) g)
+  | tanh a => (Dg x a).map (fun g => mul (sub one (mul (tanh a) (tanh a))) g)
+
+/-- pinned `laplacian`, per variable tensor `v`: the first `autograd` raised when `v` is unused; `continue` when the
+    gradient tensor has no `grad_fn` (its graph mentions no input); the second `autograd` (of a column of the gradient
+    tensor, whose graph is that of the whole gradient tensor) raised when that graph does not mention `v`. -/
+def laplacianOld (out : List (Expr V)) (vs : List (VarT V)) : Except String (List (Expr V)) :=
+  let s := sumE out
+  let bad := vs.any fun v =>
+    unusedOld s v ||
+    (let gs := v.filterMap (fun x => Dg x s)
+     gs.any (fun g => !(vars g).isEmpty) && !(v.any fun x => gs.any fun g => (vars g).contains x))
+  if bad then .error "unused" else .ok (laplacian out vs)
 
 /-- pinned `grad` used `torch.column_stack`: for batch rank ≥ 2 (tensor rank ≥ 3) it concatenates along
     axis 1; all other axes (including the last) must agree -/
